@@ -71,6 +71,46 @@ pub fn builders(n: usize, text: &str) -> Vec<(String, Packet, Option<usize>)> {
     v
 }
 
+/// typed packets for every variant of the sub-typed kinds whose codecs are written by hand (IS_CIM: mode and sub-mode,
+/// IS_SMALL: sub-type): whatever the encoder emits for one of them must decode to a packet of the same kind
+pub fn variant_builders() -> Vec<(String, Packet)> {
+    use std::time::Duration;
+    let mut v: Vec<(String, Packet)> = vec![];
+    let cim = |m: CimMode| -> Packet { Cim { mode: m, ..Default::default() }.into() };
+    for (i, sm) in [CimSubModeNormal::Normal, CimSubModeNormal::WheelTemps, CimSubModeNormal::WheelDamage, CimSubModeNormal::LiveSettings, CimSubModeNormal::PitInstructions].into_iter().enumerate() {
+        v.push((format!("Cim+Normal.{}", i), cim(CimMode::Normal(sm))));
+    }
+    for (i, sm) in [CimSubModeGarage::Info, CimSubModeGarage::Colours, CimSubModeGarage::BrakeTC, CimSubModeGarage::Susp, CimSubModeGarage::Steer, CimSubModeGarage::Drive, CimSubModeGarage::Tyres, CimSubModeGarage::Aero, CimSubModeGarage::Pass].into_iter().enumerate() {
+        v.push((format!("Cim+Garage.{}", i), cim(CimMode::Garage(sm))));
+    }
+    for (i, sm) in [CimSubModeShiftU::Plain, CimSubModeShiftU::Buttons, CimSubModeShiftU::Edit].into_iter().enumerate() {
+        for seltype in [0u8, 1, 252, 255] { v.push((format!("Cim+ShiftU.{}.{}", i, seltype), cim(CimMode::ShiftU { submode: sm, seltype }))); }
+    }
+    v.push(("Cim+Options".into(), cim(CimMode::Options)));
+    v.push(("Cim+HostOptions".into(), cim(CimMode::HostOptions)));
+    v.push(("Cim+CarSelect".into(), cim(CimMode::CarSelect)));
+    v.push(("Cim+TrackSelect".into(), cim(CimMode::TrackSelect)));
+    let small = |t: SmallType| -> Packet { Small { subt: t, ..Default::default() }.into() };
+    v.push(("Small+None".into(), small(SmallType::None)));
+    for (i, d) in [0u64, 1, 10, 1000, 65535, 4_294_967_295].into_iter().enumerate() {
+        let d = Duration::from_millis(d);
+        v.push((format!("Small+Ssp.{}", i), small(SmallType::Ssp(d))));
+        v.push((format!("Small+Ssg.{}", i), small(SmallType::Ssg(d))));
+        v.push((format!("Small+Stp.{}", i), small(SmallType::Stp(d))));
+        v.push((format!("Small+Rtp.{}", i), small(SmallType::Rtp(d))));
+        v.push((format!("Small+Nli.{}", i), small(SmallType::Nli(d))));
+    }
+    for (i, a) in [VtnAction::None, VtnAction::End, VtnAction::Restart, VtnAction::Qualify].into_iter().enumerate() { v.push((format!("Small+Vta.{}", i), small(SmallType::Vta(a)))); }
+    v.push(("Small+Tms.0".into(), small(SmallType::Tms(false))));
+    v.push(("Small+Tms.1".into(), small(SmallType::Tms(true))));
+    for (i, bits) in [0u32, 1, 1 << 19, 0xfffff, u32::MAX].into_iter().enumerate() {
+        v.push((format!("Small+Alc.{}", i), small(SmallType::Alc(PlcAllowedCarsSet::from_bits_truncate(bits)))));
+        v.push((format!("Small+Lcs.{}", i), small(SmallType::Lcs(LcsFlags::from_bits_retain(bits)))));
+        v.push((format!("Small+Lcl.{}", i), small(SmallType::Lcl(LclFlags::from_bits_retain(bits)))));
+    }
+    v
+}
+
 pub fn wellformed_case(ctx: &mut Ctx, ls: &Layouts, compressed: bool, label: &str, p: &Packet, elems: Option<usize>, detail: &str) {
     ctx.oracle_eval(&format!("wellformed-{}", label.split('+').next().unwrap_or(label)));
     let input = format!("c03.build {} {} {}", mode_tok(compressed), label, detail);
@@ -139,6 +179,7 @@ pub fn run(ctx: &mut Ctx) {
                 ["pkt.rt", m, h] => redecode_case(ctx, &ls, *m == "c", &unhex(h), true),
                 // oracle only: inputs outside the model's value space (e.g. MSO names longer than 255 UTF-8 bytes)
                 ["c03.redecode", m, h] => redecode_case(ctx, &ls, *m == "c", &unhex(h), false),
+                ["c03.build", m, label, "variant"] => { for (lab, p) in variant_builders() { if lab == *label { wellformed_case(ctx, &ls, *m == "c", label, &p, None, "variant"); } } },
                 ["c03.build", m, label, detail] => {
                     let (n, tl): (usize, usize) = { let mut it = detail.split(','); (it.next().and_then(|x| x.trim_start_matches("n=").parse().ok()).unwrap_or(0), it.next().and_then(|x| x.trim_start_matches("text=").parse().ok()).unwrap_or(0)) };
                     // a text given by its code points (`cps=`) is rebuilt exactly; otherwise `text=<len>` means that many 'a'
@@ -157,6 +198,8 @@ pub fn run(ctx: &mut Ctx) {
         for len in [2040usize, 2044, 4080, 4084, 4096, 65536, 65540, 1 << 20] { len_case(ctx, compressed, len); }
         ctx.exhaustive_domains.push(format!("every body length 0..={} through Mode::encode_length, mode {}", if quick { 1300 } else { 5000 }, mode_tok(compressed)));
         // element counts 0..=257 and texts of every length 0..2x the largest width
+        // every variant of the hand-coded sub-typed kinds
+        for (lab, p) in variant_builders() { wellformed_case(ctx, &ls, compressed, &lab, &p, None, "variant"); }
         for n in 0..=257usize {
             if quick && n > 45 && n % 9 != 0 && n < 250 { continue; }
             for (lab, p, e) in builders(n, "") { if e.is_some() { wellformed_case(ctx, &ls, compressed, &lab, &p, e, &format!("n={},text=0", n)); } }
